@@ -11,6 +11,7 @@ package py
 
 import (
 	"bytes"
+	"reflect"
 )
 
 const dictDoc = `dict() -> new empty dictionary
@@ -278,6 +279,13 @@ func (a StringDict) M__eq__(other Object) (Object, error) {
 	if len(a) != len(b) {
 		return False, nil
 	}
+	if reflect.ValueOf(a).Pointer() == reflect.ValueOf(b).Pointer() {
+		return True, nil
+	}
+	if err := compareEnter(); err != nil {
+		return nil, err
+	}
+	defer compareLeave()
 	for k, av := range a {
 		bv, ok := b[k]
 		if !ok {
